@@ -207,6 +207,20 @@ func vMetaSpec(tag string, aspect int) *spec.Swagger {
 		if vBool2(tag + ".opext") {
 			op.Extensions = spec.Extensions{"x-b": "1"}
 		}
+	case 9: // path-level extension, a second method on the same path
+		pi := sw.Paths.Paths["/a"]
+		if vBool2(tag + ".pathext") {
+			pi.Extensions = spec.Extensions{"x-p": "1"}
+		}
+		if vBool2(tag + ".hasPost") {
+			pi.Post = &spec.Operation{}
+			pi.Post.Responses = &spec.Responses{}
+		}
+		if vBool2(tag + ".hasPut") {
+			pi.Put = &spec.Operation{}
+			pi.Put.Responses = &spec.Responses{}
+		}
+		sw.Paths.Paths["/a"] = pi
 	case 8:
 		if vBool2(tag + ".defX") {
 			sw.Definitions = spec.Definitions{"X": *vLeaf(vkStr).build()}
@@ -216,7 +230,10 @@ func vMetaSpec(tag string, aspect int) *spec.Swagger {
 }
 
 func VerifC14MirrorMeta() {
-	aspect := vChoice("aspect", 9)
+	aspect := vChoice("aspect", 10)
+	if vParam("mapsites") > 0 {
+		vMapOrderSite(vChoice("mapsite", vParam("mapsites")+1) - 1)
+	}
 	a, b := vMetaSpec("a", aspect), vMetaSpec("b", aspect)
 	vObserve("aspect", aspect)
 	vCover("built")
